@@ -1,5 +1,6 @@
 import JobShopProofs.Properties.C11World
 import JobShopProofs.CompositeWorld
+import JobShopProofs.LateAttach
 /-!
 # C11 — all theorems (`C11World`: every observer's values in every reachable world; `CompositeWorld`: the composite
 is the concatenation of its parts' current matrices, with one name per column, in every reachable world)
